@@ -443,6 +443,9 @@ register('C14', 'proof',
          not_decided=['the sums of get_load() and get_nodes_load() (python sum() over generators) are abstracted by the ghost '
                       'quantities L(i), NL(m) (assumed contracts GetLoad, GetNodesLoad); get_node_load_request_map() is PROVED '
                       'to return, per machine, the sum of the requests of all its identifiers (loop invariant over setsum)',
+                      '"loads include starts already requested": the request map itself (ApplicationStartJobs.'
+                      'get_load_requests) is proved for its domain and for the lower bound "at least each pending command" '
+                      '(contracts/c04_loadreq.py), not for the exact sum; Starter.get_load_requests is not under contract',
                       'distribute_to_single_instance / distribute_to_single_node / before / on_command_added (DESIGN C14.4): '
                       'only their call sites of update_identifier are decided, structurally (pyvc/structural_c14.py) on top '
                       'of the PROVED contract of ProcessStartCommand.update_identifier (KeyError iff unknown / None target, '
@@ -465,8 +468,21 @@ register('C04', 'proof',
          '(contracts/c14.py); ProcessStatus.possible_identifiers = permitted by the rule and known and enabled; '
          'ApplicationStartJobs.process_job: nothing sent unless the process is stopped, at most one request, target '
          'RUNNING / knows the program / enabled / permitted, FATAL "No resource available" otherwise; mapper.nodes has a '
-         'single writer whose preservation of the duplicate-free invariant is an obligation.',
-         not_decided=['the sums (instance load, node load, pending requests per machine) are ghost quantities, see C14',
+         'single writer whose preservation of the duplicate-free invariant is an obligation.  "The starts already '
+         'requested": ApplicationStartJobs.get_load_requests is PROVED (contracts/c04_loadreq.py) to have as keys exactly '
+         'the targets of the commands of current_jobs and of every group of planned_jobs whose process is still stopped, '
+         'with a value >= the expected_load of each of them; its result is fresh and its keys are identified instances '
+         '(call-site facet, contracts/c04.py).',
+         not_decided=['the sums (instance load, node load) are ghost quantities, see C14',
+                      'ApplicationStartJobs.get_load_requests: the EXACT value (sum with multiplicities of the expected_load '
+                      'of the pending commands per target) is not decided - only its domain and the lower bound "at least '
+                      'each counted command"; `max(load_list)` instead of `sum(load_list)` satisfies both and is not refuted '
+                      '(the clause "at least the sum of any two distinct counted commands" is drafted and verifies, but is '
+                      'parked in contracts/wip_c04_starter_load_requests.txt until a mutant only it refutes is shown)',
+                      'Starter.get_load_requests (sum over the application jobs in progress) is not under contract in this '
+                      'group: drafted in contracts/wip_c04_starter_load_requests.txt (domain = union of the domains, value >= '
+                      'each job\'s value; `max` instead of `sum` over the jobs would NOT be refutable by that lower bound '
+                      'either); the engine summaries it needs (sum over a generator, comprehension with invariant) exist',
                       'SupvisorsMapper.filter is assumed (string-level resolution of identifiers / nicks / stereotypes)',
                       'ApplicationStatus.possible_identifiers / possible_node_identifiers (set intersections inside loops) are '
                       'not under contract yet',
@@ -475,8 +491,9 @@ register('C04', 'proof',
                       '"already being started by the same instance is not requested again" (add_commands de-duplication)'],
          assumptions=['transport: RpcHandler.send_start_process only queues the request (effect log)',
                       'ApplicationJobs.fail_command forces the state through the listener (assumed, no frame)',
-                      'get_load_requests returns the pending requests of this application job; its keys are identified '
-                      'instances; per machine it is at most AllPending',
+                      'rely of process_job (was part of the assumed contract of get_load_requests): the targets already '
+                      'recorded in the commands of the job are identified instances (chosen RUNNING; identification is never '
+                      'undone)',
                       'payload record shapes (REC_KEYS)', 'expected_load in [0,100] (C18)'],
          extra='pyvc.structural_c04')
 register('C19', 'proof',
